@@ -39,6 +39,8 @@ WORLD_NOTES = {
     "C10": ("model_checking", "MCWorld (2-world instance: Clone/CloneFrom preserve StoreInv and the map) + real clone/clone_from with content, token-freshness, frame and lock-step checks"),
     "C13": ("model_checking", "MCWorld Inv_C13 exhaustively + StoreInv evaluated by TLC on the hook's dump of every live world after every event"),
     "C15": ("exploration", "resource addressing: get_mut / view_resources / query resource views in 14 subset-order-mutability variants, plus frame checks on every entity operation, clone and serde"),
+    "C03": ("exploration", "a generated family of 132 queries (every view kind alone and pairwise, view order, identifier view, nested filters incl. views used as filters, World::entry queries, every super-view/sub-view pairing of query-time Entries, iteration combined with entry views) run against every world state the histories pass through; TLC evaluates the query on the reference map and compares result set/multiset, per-item values and tokens, Option-ness, writes, and size_hint brackets"),
+    "C09": ("exploration", "par_query over the parallel part of the query family on worlds with many/empty/short/long tables (up to ~80 rows) under rayon pools of 1,2,3,4,8,16 threads; TLC compares the multiset of results with the reference map's answer, the writes with the sequential semantics, and requires the addresses of mutably yielded values to be pairwise distinct"),
     "C16": ("exploration", "== logged for every ordered pair of live worlds after every event; TLC checks reflexivity, symmetry, eq => same content, and eq after clone / serde"),
 }
 
@@ -60,6 +62,10 @@ def relevant(prop, st):
         return g("op:getmut") + g("op:viewres")
     if prop == "C16":
         return g("eq-true-pairs")
+    if prop == "C03":
+        return g("op:query") + g("op:qmut")
+    if prop == "C09":
+        return g("query:par")
     return g("events")
 
 def known_split(prop, fails):
